@@ -19,7 +19,7 @@ SHARD_TIMEOUT = {"quick": 1500, "thorough": 14000}
 
 
 def shards(tier, seed):
-    ni, nn = {"quick": (40, 5), "thorough": (2000, 120)}[tier]
+    ni, nn = {"quick": (40, 24), "thorough": (2000, 1000)}[tier]
     return [{"n_ideal": ni, "n_nonideal": nn} for _ in range(16)]
 
 
@@ -104,8 +104,8 @@ def run_shard(spec, rep):
         if rep.n_violations >= 20:
             break
         rng = gen.case_rng(PROP, spec["seed"], spec["shard"], index)
-        sc = proc.Scenario(rng, kinds=kinds, max_steps=20)
-        n2 = rng.choice([-7, -3, -1, 1, 2, 5, 9])
+        sc = proc.Scenario(rng, kinds=kinds, max_steps=20, nonideal_orders=0)  # cheap fits: scaling is the subject
+        n2 = rng.choice([-10, -7, -3, -1, 1, 2, 5, 10])  # 2^-10 .. 2^10 spans the 1e-3..1e3 of the property
         k = gen.loguniform(rng, 1e-3, 1e3)
         case = dict(sc.describe(), index=index, pow2=n2, k=k)
         status, base = sc.run()
